@@ -6,4 +6,5 @@ CONSTANT VarImps = {FALSE, TRUE}
 CONSTANT FileModes = {"sep", "joint"}
 CONSTANT SeedOpts = {1, 2, 3, 4}
 CONSTANT PruneOpts = {1, 2, 3, 4, 5, 6, 7, 8, 9, 10, 11, 12, 13, 14, 15, 16, 17, 18, 19, 20, 21}
+CONSTANT Ifcs = {FALSE}
 CHECK_DEADLOCK FALSE
